@@ -116,7 +116,7 @@ def build(mode, tok):
 # ------------------------------------------------------------------------------------------------ sessions
 SW_HTS = (1, 2, 3, 0x81, 0x82, 0x83)
 LEGACY_KINDS = ('p2pkh', 'p2pk', 'multisig', 'p2sh_multisig')
-PRIV_MODES = ('apik', 'apib', 'apikr', 'ctor')
+PRIV_MODES = ('apik', 'apib', 'apikr', 'ctor', 'kn', 'kl', 'ka', 'kla', 'klc', 'kac', 'knc')
 
 
 def parse_in(s):
@@ -172,6 +172,26 @@ def build_session(mode, tok):
         for i in li:
             t.add_input(prev_txid=i['prev'][::-1].hex(), output_n=i['vout'], sequence=i['seq'], index_n=i['idx'],
                         value=i['value'], **form_args(i, mode, net))
+        for v, sc in lo:
+            t.add_output(v, lock_script=sc)
+        return t, li
+    if mode in INFER_MODES:
+        # the witness type (and for single-key inputs the script type) is NOT passed: the library infers it from the
+        # locking script / address / script type / unlocking script it is given (with or without keys)
+        kw = dict(locktime=lock, witness_type=wt, network=net)
+        if ver:
+            kw['version'] = ver
+        if mode.endswith('c'):      # Input objects handed to the constructor
+            ins = [Input(prev_txid=i['prev'][::-1].hex(), output_n=i['vout'], sequence=i['seq'], index_n=p, value=i['value'],
+                         network=net, **infer_args(i, mode[:-1], net)) for p, i in enumerate(li)]
+            outs = [Output(v, lock_script=sc, network=net) for v, sc in lo]
+            if ver:
+                kw['version'] = ver.to_bytes(4, 'big')
+            return Transaction(ins, outs, fee=0, **kw), li
+        t = Transaction(**kw)
+        for i in li:
+            t.add_input(prev_txid=i['prev'][::-1].hex(), output_n=i['vout'], sequence=i['seq'], index_n=i['idx'],
+                        value=i['value'], **infer_args(i, mode, net))
         for v, sc in lo:
             t.add_output(v, lock_script=sc)
         return t, li
@@ -239,6 +259,88 @@ def form_args(i, mode, net):
     return args
 
 
+INFER_MODES = ('kn', 'kl', 'ka', 'kla', 'il', 'ia', 'klc', 'kac', 'ilc', 'knc')
+
+
+def spent_lock(i):
+    """scriptPubKey of the output the input spends (written here from the kind, not read from the library)"""
+    k = i['kind']
+    pubs = [bytes.fromhex(x) for x in i['keys']]
+    if k in ('p2pkh', 'p2wpkh', 'p2sh_p2wpkh'):
+        h = _h160(pubs[0])
+        return {'p2pkh': b'\x76\xa9\x14' + h + b'\x88\xac', 'p2wpkh': b'\x00\x14' + h,
+                'p2sh_p2wpkh': b'\xa9\x14' + _h160(b'\x00\x14' + h) + b'\x87'}[k]
+    if k == 'p2pk':
+        return _push(pubs[0]) + b'\xac'
+    red = bytes([0x50 + i['m']]) + b''.join(_push(x) for x in pubs) + bytes([0x50 + len(pubs)]) + b'\xae'
+    if k == 'multisig':
+        return red
+    if k == 'p2sh_multisig':
+        return b'\xa9\x14' + _h160(red) + b'\x87'
+    if k == 'p2wsh':
+        return b'\x00\x20' + hashlib.sha256(red).digest()
+    return b'\xa9\x14' + _h160(b'\x00\x20' + hashlib.sha256(red).digest()) + b'\x87'
+
+
+def spent_address(i, net):
+    from bitcoinlib.keys import Address
+    k = i['kind']
+    lock = spent_lock(i)
+    if k == 'p2pkh':
+        return Address(hashed_data=lock[3:23], script_type='p2pkh', encoding='base58', network=net).address
+    if k == 'p2wpkh':
+        return Address(hashed_data=lock[2:], script_type='p2wpkh', encoding='bech32', network=net).address
+    if k == 'p2wsh':
+        return Address(hashed_data=lock[2:], script_type='p2wsh', encoding='bech32', network=net).address
+    if k in ('p2sh_multisig', 'p2sh_p2wpkh', 'p2sh_p2wsh'):
+        return Address(hashed_data=lock[2:22], script_type='p2sh', encoding='base58', network=net).address
+    return None
+
+
+def infer_args(i, mode, net):
+    """arguments of an input whose witness type is left to the library.  k*: the private keys are passed, i*: no keys
+    (they arrive with sign(keys)); *n: nothing else, *l: the locking script of the spent output, *a: its address,
+    *la: both.  What cannot be inferred from those (script type of P2PK, of the
+    multisig kinds and of the nested kinds; sigs_required) is passed; witness_type never is."""
+    base = kind_args(i, False, priv=True)
+    k = i['kind']
+    args = {a: v for a, v in base.items() if a != 'witness_type'}
+    if k in ('p2pkh', 'p2wpkh'):
+        args.pop('script_type', None)
+    if mode[0] == 'i':
+        if k in ('p2pkh', 'p2pk', 'p2wpkh', 'p2sh_p2wpkh'):
+            args.pop('keys', None)
+        else:
+            args['keys'] = list(i['keys'])      # multisig kinds: the script is made of the public keys
+    form = mode[1:]
+    if 'l' in form and k != 'multisig':
+        args['locking_script'] = spent_lock(i)
+    if 'a' in form:
+        a = spent_address(i, net)
+        if a:
+            args['address'] = a
+    return args
+
+
+def wt_name(w):
+    return {'legacy': 'leg', 'segwit': 'sw', 'p2sh-segwit': 'p2sh'}.get(w, 'X' + str(w))
+
+
+def observe_inferred(t, li):
+    """per input: the witness type the library holds for it and the preimage / digest of Transaction.signature called
+    with THAT witness type, hash type ALL (what Transaction.sign does)"""
+    out = []
+    for p, i in enumerate(li):
+        try:
+            w = t.inputs[p].witness_type
+            pre = t.signature(p, 1, w)
+            dig = t.signature_hash(p, 1, w)
+            out.append('%d.%s.%s.%s' % (p, wt_name(w), hx(pre), hx(dig)))
+        except Exception:
+            out.append('%d.ERR' % p)
+    return ','.join(out) or '-'
+
+
 def key_form(pubhex, form, net):
     k = PRIV[pubhex]
     if form == 'h':
@@ -303,6 +405,12 @@ def session_op(t, li, mode, op):
         except Exception:
             return 'D=ERR'
         return 'D=' + raw + '#' + observe_digests(t, li)
+    if k == 'inf':
+        try:
+            raw = hx(t.raw())
+        except Exception:
+            return 'I=ERR'
+        return 'I=' + raw + '#' + observe_inferred(t, li)
     if k == 'raw':
         try:
             return 'R=%s#%d#%d' % (hx(t.raw()), int.from_bytes(t.version, 'big'), t.version_int)
